@@ -1,10 +1,12 @@
-"""C10 (see DESIGN.md section 6)."""
-from vlib.framework import PUnit, LUnit, BUnit
+"""C10 -- every residue-graph edge is realised by a bond or reported as missing (see DESIGN.md section 6 and 11)."""
+from vlib.framework import PUnit, LUnit, BUnit, LeanUnit
 from bounded import b_links as B
+from contracts import graph_utils as G
 
-P_UNITS = []
+P_UNITS = [PUnit("connecting-and-missing-edges", G.CONTRACTS, G.REG),
+           LeanUnit("degree-lemma-certificate", "lean/Degree.lean")]
 
 
 def build(tier, seed):
     units = list(P_UNITS) + [u for u in B.UNITS if u.name in "c10-edges-or-warning".split()]
-    return {"units": units, "level": "other", "notes": "bounded stand-in (executable contracts on the real functions); see evidence units"}
+    return {"units": units, "level": "other", "notes": "pyvc contracts on graph_utils + bounded stand-in for the warning loop and the connectivity gate"}
